@@ -46,6 +46,11 @@ pub struct World {
     pub shadow: BTreeMap<u32, crate::hist_oracle::Shadow>,
     pub last_trace: Vec<::whirlpool::manager::swap_manager::verif_trace::StepTrace>,
     pub last_swap_report: (u64, u64, u64, u64),
+    /// C13: data length of each dynamic tick-array account as driven by the returned TickArraySizeUpdate (148 when new)
+    pub acct_len: BTreeMap<i32, i64>,
+    /// C13: tick-rent units (779520 lamports each) held by each dynamic array / still held by each position (2 when opened)
+    pub array_rent: BTreeMap<i32, i64>,
+    pub pos_rent: BTreeMap<u32, i64>,
 }
 
 fn anchor_err_name(e: anchor_lang::error::Error) -> String {
@@ -60,6 +65,23 @@ fn pino_err_name(e: pino::UnifiedError) -> String {
         pino::UnifiedError::Anchor(a) => anchor_err_name(a),
         pino::UnifiedError::Pinocchio(p) => format!("PinocchioError({:?})", p),
     }
+}
+
+/// (size change in ticks, rent units moved position -> array) of a TickArrayUpdate
+fn tau_code(u: &::whirlpool::manager::tick_array_manager::TickArrayUpdate) -> (i64, i64) {
+    use ::whirlpool::manager::tick_array_manager::{TickArrayRentTransfer as R, TickArraySizeUpdate as S};
+    (
+        match u.size_update {
+            S::None => 0,
+            S::Increase => 1,
+            S::Decrease => -1,
+        },
+        match u.transfer_rent {
+            R::None => 0,
+            R::TransferToTickArray => 1,
+            R::TransferToPosition => -1,
+        },
+    )
 }
 
 const DYN_MAX: usize = 8 + 4 + 32 + 16 + 113 * 88;
@@ -266,6 +288,9 @@ impl World {
             shadow: BTreeMap::new(),
             last_trace: vec![],
             last_swap_report: (0, 0, 0, 0),
+            acct_len: BTreeMap::new(),
+            array_rent: BTreeMap::new(),
+            pos_rent: BTreeMap::new(),
         }
     }
 
@@ -285,6 +310,7 @@ impl World {
         let upper_copy = if ls == us { None } else { Some(ArrayAcc { data: RefCell::new(self.arrays[&us].data.borrow().clone()), dynamic: self.arrays[&us].dynamic }) };
         let ts_now = self.now;
         let (da, db);
+        let (tau_l, tau_u);
         if use_pino {
             let wpm = unsafe { &mut *(wp_bytes.as_mut_ptr() as *mut pino::whirlpool::MemoryMappedWhirlpool) };
             let pm = unsafe { &mut *(pos_bytes.as_mut_ptr() as *mut pino::whirlpool::MemoryMappedPosition) };
@@ -297,6 +323,8 @@ impl World {
                 }
             }
             .map_err(pino_err_name)?;
+            tau_l = tau_code(&update.tick_array_lower_update);
+            tau_u = tau_code(&update.tick_array_upper_update);
             match &upper_copy {
                 None => pino::manager_liquidity_manager::pino_sync_modify_liquidity_values(wpm, pm, lower, None, &update, ts_now),
                 Some(u) => {
@@ -323,6 +351,8 @@ impl World {
                 }
             }
             .map_err(anchor_err_name)?;
+            tau_l = tau_code(&update.tick_array_lower_update);
+            tau_u = tau_code(&update.tick_array_upper_update);
             {
                 let mut lower = World::anchor_view(&lower_copy);
                 match &upper_copy {
@@ -357,6 +387,12 @@ impl World {
         }
         self.wp = wp_bytes;
         self.positions.insert(id, pos_bytes);
+        // C13: what pino_update_tick_array_accounts / update_tick_array_accounts would do with the returned updates
+        for (st, (size, rent)) in [(ls, tau_l), (us, tau_u)] {
+            *self.acct_len.entry(st).or_insert(148) += 112 * size;
+            *self.array_rent.entry(st).or_insert(0) += rent;
+            *self.pos_rent.entry(id).or_insert(2) -= rent;
+        }
         *self.arrays.get(&ls).unwrap().data.borrow_mut() = lower_copy.data.into_inner();
         if let Some(u) = upper_copy {
             *self.arrays.get(&us).unwrap().data.borrow_mut() = u.data.into_inner();
